@@ -66,12 +66,24 @@ def generate(ctx, rng):
     for j in range(4 if ctx.tier == "quick" else 60):
         yield ("wire-session", j), {"kind": "wire-session", "frame": b"", "id": rng.choice(BOUNDARY_IDS), "n": 300, "sseed": rng.getrandbits(32),
                                     "epoch": _rand_epoch(rng)}
+    # the id the client was configured with need not be the id the device puts into its own packets (0 = "unknown" is the
+    # command line tool's default): every request must still carry the configured id
+    for j in range(16 if ctx.tier == "quick" else 400):
+        yield ("wire-session-foreign-id", j), {"kind": "wire-session", "frame": b"", "id": [0, 0, 1, 2 ** 48 - 1][j % 4], "n": 12, "sseed": rng.getrandbits(32),
+                                               "epoch": _rand_epoch(rng), "reply_id": rng.choice([rng.getrandbits(48) | 1, 2 ** 64 - 1, 2 ** 63, 0x5A5A])}
     # a long-running process: more packets than any 16-bit counter holds, all in this process
     yield ("bulk", 0), {"kind": "bulk", "frame": b"", "id": 1, "n": 70000 if ctx.tier == "quick" else 140000, "sseed": rng.getrandbits(32)}
     # two LAN objects (two devices) working at the same time; one of them has to retransmit
     for j in range(40 if ctx.tier == "quick" else 2000):
         yield ("pair", j), {"kind": "pair", "frame": b"", "id": 1, "sseed": rng.getrandbits(32), "n": rng.randint(2, 4),
                             "drops": [rng.choice([0, 1, 2]) for _ in range(4)], "offsets": [rng.choice([0.0, 0.3, 0.5, 1.9, 2.1, 2.5]) for _ in range(4)]}
+    # boundary response lengths (0, 1, block edges, 255) at every position of a 1-3 response exchange
+    edge = [0, 1, 15, 16, 17, 255]
+    combos = [[a] for a in edge] + [[a, b] for a in edge for b in edge] + [[rng.choice(edge), 0, rng.choice(edge)] for _ in range(12)] + \
+             [[0, 0, 0], [0, 0], [5, 0, 0], [0, 5, 0]]
+    for j, lens in enumerate(combos):
+        yield ("wire-edge", j), {"kind": "wire", "frame": rng.randbytes(rng.choice(edge)), "id": rng.choice(BOUNDARY_IDS),
+                                 "responses": [rng.randbytes(n) for n in lens], "epoch": _rand_epoch(rng), "drop_first": 0}
     for j in range(n_wire):
         L = j % 256 if j < 256 else rng.randint(0, 255)
         nresp = rng.choice([1, 1, 2, 3])
@@ -88,7 +100,8 @@ def _wire_session(ctx, case):
     net = H.new_net()
     dev = SimDevice(net, version=2, device_id=did & (2 ** 64 - 1))
     seen = []
-    dev.on_exchange = lambda conn, req, packets, meta: (seen.append((req, meta["v2"]["device_id"])) or [(0, v2.build(req[::-1], did))])
+    rid = case.get("reply_id", did)
+    dev.on_exchange = lambda conn, req, packets, meta: (seen.append((req, meta["v2"]["device_id"])) or [(0, v2.build(req[::-1], rid))])
     frames = [r.randbytes(r.choice([0, 1, 15, 16, 17, 31, 32, 33, 47, 48, 64, 100, 255])) for _ in range(case["n"])]
     got_all = []
 
